@@ -276,15 +276,17 @@ func (s *scen) settle() []gdump.G {
 // hive.go/app/daemon", (e) goroutine states and standard-library frames.
 // Unexported daemon identifiers decide nothing.
 type shutView struct {
-	executing []gdump.G // parked in sync.WaitGroup.Wait: the goroutine that performs the shutdown
-	onceWait  int       // callers parked in sync.Once's mutex behind the executing one
-	odd       []gdump.G // shutdown callers / other daemon goroutines parked anywhere else
-	blind     string    // non-empty: the snapshot contradicts what the harness knows => INCONCLUSIVE
+	// inside: goroutines that are still inside a Shutdown/ShutdownAndWait call at this quiescent point –
+	// busy shutdown-caller actors of the harness, and goroutines the daemon spawned from Shutdown
+	// (Shutdown.gowrap frame or "created by …(*OrderedDaemon).Shutdown"). WHICH blocking primitive
+	// they are parked on (WaitGroup, Cond, Mutex, Once, channel, …) is irrelevant and never inspected:
+	// the snapshot is quiescent, so every one of them is blocked.
+	inside []gdump.G
+	blind  string // non-empty: the snapshot contradicts what the harness knows => INCONCLUSIVE
 }
 
-// inProgress: some goroutine is still inside a Shutdown/ShutdownAndWait call
-// (or is a left-over goroutine of the daemon that is not inside a handler).
-func (v shutView) inProgress() bool { return len(v.executing) > 0 || v.onceWait > 0 || len(v.odd) > 0 }
+// inProgress: some goroutine is still inside a Shutdown/ShutdownAndWait call.
+func (v shutView) inProgress() bool { return len(v.inside) > 0 }
 
 const exportedShutdownFrame = "daemon.(*OrderedDaemon).Shutdown" // prefix of Shutdown, ShutdownAndWait, Shutdown.gowrapN
 
@@ -303,41 +305,28 @@ func (s *scen) shutdownView(gs []gdump.G) shutView {
 	seenCaller := 0
 	for _, g := range gs {
 		if g.State == "running" {
-			continue
+			continue // the controller taking the snapshot
 		}
-		caller := busyCaller[g.ID]
-		if !caller {
-			if actorIDs[g.ID] || g.Has("main.(*wk).fn") {
-				continue // other harness actors (registrar, runner, gated call), workers inside their handler
-			}
-			if !strings.Contains(g.Raw, "hive.go/app/daemon.") {
-				continue // not a goroutine of the daemon
-			}
-		} else {
+		if busyCaller[g.ID] {
 			seenCaller++
 			if !g.Has(exportedShutdownFrame) {
 				v.blind = fmt.Sprintf("busy shutdown caller (goroutine %d) shows no exported Shutdown/ShutdownAndWait frame", g.ID)
 			}
+			v.inside = append(v.inside, g)
+			continue
 		}
-		switch {
-		case strings.HasPrefix(g.State, "semacquire") && g.Has("sync.(*WaitGroup).Wait"):
-			v.executing = append(v.executing, g)
-		case strings.HasPrefix(g.State, "sync.Mutex.Lock") && g.Has("sync.(*Once).doSlow"):
-			v.onceWait++
-		default:
-			v.odd = append(v.odd, g)
+		if actorIDs[g.ID] || g.Has("main.(*wk).fn") {
+			continue // other harness actors (registrar, runner, gated call), workers inside their handler
+		}
+		// spawned by the daemon's Shutdown (exported name in a frame or in the "created by" line)
+		if strings.Contains(g.Raw, "hive.go/app/daemon.(*OrderedDaemon).Shutdown") {
+			v.inside = append(v.inside, g)
 		}
 	}
 	if seenCaller != len(busyCaller) {
 		v.blind = fmt.Sprintf("%d shutdown callers are busy but only %d of them appear in the snapshot", len(busyCaller), seenCaller)
 	}
-	if v.onceWait > 0 && len(v.executing) == 0 && len(v.odd) == 0 {
-		v.blind = "callers wait in sync.Once but the goroutine performing the shutdown was not found"
-	}
-	if len(v.executing) > 1 {
-		v.blind = fmt.Sprintf("%d goroutines look like the one performing the shutdown", len(v.executing))
-	}
-	if len(v.executing) == 1 {
+	if len(v.inside) > 0 {
 		s.c.Count("shutdown_goroutine_identified", 1)
 	}
 	return v
@@ -468,12 +457,8 @@ func (s *scen) checkShutdown(gs []gdump.G) []gdump.G {
 		s.c.Inconclusive(fmt.Sprintf("cfg %d: cannot identify the shutdown goroutine: %s", s.seed, v.blind))
 		s.dirty = true
 	}
-	for _, g := range v.odd {
-		s.c.Inconclusive(fmt.Sprintf("cfg %d: shutdown caller / daemon goroutine %d parked in unexpected state %q", s.seed, g.ID, g.State))
-		s.dirty = true
-	}
-	if len(live) > 0 && s.started && len(v.executing) == 1 {
-		s.c.Count("shutdown_seen_waiting_for_live_workers", 1)
+	if len(live) > 0 && s.started && len(v.inside) > 0 {
+		s.c.Count("shutdown_seen_waiting_for_live_workers", 1) // calibration: blocked inside Shutdown* while the harness holds gates
 	}
 	maxLive := 0
 	any := false
@@ -897,11 +882,14 @@ func (s *scen) run() bool {
 		gs = s.settle()
 	}
 	if !stalled && s.started {
-		if v := s.shutdownView(gs); len(v.executing) > 0 {
-			s.violation("hang:shutdown-parked-after-all-workers-returned", "every worker has returned and the process is quiescent, but the goroutine performing the shutdown is still parked in "+v.executing[0].State+" (sync.WaitGroup.Wait)")
+		// primitive-independent hang rule: every worker has returned, the harness holds no gate, nothing is
+		// runnable (two identical quiescent snapshots) – a goroutine still inside Shutdown/ShutdownAndWait
+		// can never get out, whatever it is parked on.
+		if v := s.shutdownView(gs); v.blind != "" {
+			s.c.Inconclusive(fmt.Sprintf("cfg %d: after all workers returned: %s", s.seed, v.blind))
 			s.dirty = true
-		} else if v.blind != "" || len(v.odd) > 0 {
-			s.c.Inconclusive(fmt.Sprintf("cfg %d: after all workers returned: shutdown callers in an unidentified state (%s, %d odd)", s.seed, v.blind, len(v.odd)))
+		} else if len(v.inside) > 0 {
+			s.violation("hang:shutdown-parked-after-all-workers-returned", fmt.Sprintf("every worker has returned, the harness holds no gate and the process is quiescent, but %d goroutine(s) are still blocked inside Shutdown/ShutdownAndWait (state %q)", len(v.inside), v.inside[0].State))
 			s.dirty = true
 		}
 	}
